@@ -5,7 +5,9 @@
    (strength: partial by construction).  For the two rules whose implementation is not the naive algorithm,
    literal models of the code (Exec/MergeXing.v, Exec/FragCycles.v) are related to declarative statements here. *)
 From ApolloVerif Require Import Base.Chars Ast.Ast Schema.Model Exec.Compat Exec.Valid Exec.ValidProofs
-  Exec.FragCycles Exec.FragCyclesProofs Exec.MergeXing Exec.MergeXingProofs Exec.Known.
+  Exec.FragCycles Exec.FragCyclesProofs Exec.MergeXing Exec.MergeXingProofs Exec.Known
+  Exec.MergeXingEquivExpand Exec.MergeXingEquivBridge Exec.MergeXingEquivSem Exec.MergeXingEquivSpec
+  Exec.MergeXingEquivKeys Exec.MergeXingEquivMemo Exec.MergeXingEquivDoc Exec.MergeXingEquivRules Exec.MergeXingEquivFuel.
 
 (* Within the limit, the literal detection of validation/fragment.rs, anchored at the fragment r, reports a cycle
    iff there is a path of one or more fragment spreads from r back to r.  (<-) is the soundness of the `seen`
@@ -108,19 +110,9 @@ Proof. exact xv_verdict_decomposes. Qed.
 Check C17_verdict_decomposes : forall p s d, xv_exec_valid p s d = true <-> xv_all_rules p s d.
 Print Assumptions C17_verdict_decomposes.
 
-(* C17_xing_equiv, the full statement, is NOT PROVED:
-     forall s d, xv_r_no_fragment_cycles d = true -> xv_r_argument_unique s d = true ->
-       xv_r_input_field_unique s d = true -> xv_r_fields_defined s d = true -> xv_r_leaf_selections s d = true ->
-       fragment type conditions defined and composite -> within FIELD_DEPTH_LIMIT ->
-       mx_document_ok s d = Some (xv_r_fields_merge s d).
-   The literal model and the specification's rule are instead compared inside modelrun on every generated case
-   that from_ast.rs builds without loss (evidence: literal_merging_vs_spec).
-   Proved, exactly: the pairwise tests of the code are the specification's (this theorem: 2bi/2bii of
-   FieldsInSetCanMerge, steps 3-6 of SameResponseShape), they are equivalences so that first-against-rest decides
-   all pairs (C17_first_vs_rest, _arguments, _shape, C17_same_value_equiv), and the parent grouping is the
-   specification's condition (C17_xing_groups).  Missing: expand_selections (queue, one visit per fragment) against
-   the specification's collection of fields, the recursion through merged sub-selections (two separate passes in
-   the code, one pairwise recursion in the specification), the two memo guards with the cache, the depth limit. *)
+(* The pairwise tests of the code are the specification's (2bi/2bii of FieldsInSetCanMerge, steps 3-6 of
+   SameResponseShape).  Kept under its original name; it is one ingredient of C17_xing_equiv below, which also
+   covers expand_selections, the recursion through merged sub-selections, the memo guards and the depth limit. *)
 Theorem C17_xing_equiv_partial :
   (forall a b, args_wf a -> args_wf b ->
      (mx_same_name_and_arguments a b = true <->
@@ -139,6 +131,136 @@ Check C17_xing_equiv_partial :
   (forall s a b, field_ty_defined s a -> field_ty_defined s b ->
      mx_same_output_type_shape s a b = spec_shape_steps s (fd_ty (mf_def a)) (fd_ty (mf_def b))).
 Print Assumptions C17_xing_equiv_partial.
+
+(* ---------- the literal field-merging algorithm = the specification's rule (deepening) ---------- *)
+
+(* expand_selections (queue, one visit per named fragment) always returns: the model's fuel is never exhausted,
+   whatever the fragment map (cyclic or not) *)
+Theorem C17_mx_expand_total : forall frags sets, mx_expand frags sets <> None.
+Proof. exact mx_expand_some. Qed.
+Check C17_mx_expand_total : forall frags sets, mx_expand frags sets <> None.
+Print Assumptions C17_mx_expand_total.
+
+(* ... and yields exactly the (parent type, field) pairs that expanding every spread where it is written yields
+   (mxc_collect: Valid.v's xv_collect transcribed for the executable document).  Equality of members: the two differ
+   in order, and in multiplicity when a fragment is spread more than once, neither of which the checks read. *)
+Theorem C17_mx_expand_eq_collect : forall frags sets out, mx_expand frags sets = Some out ->
+  forall fuel Ls, Forall2 (fun st L => mxc_collect fuel frags (fst st) (snd st) = Some L) sets Ls ->
+  forall f, In f out <-> In f (concat Ls).
+Proof. exact mx_expand_eq_collect. Qed.
+Check C17_mx_expand_eq_collect : forall frags sets out, mx_expand frags sets = Some out ->
+  forall fuel Ls, Forall2 (fun st L => mxc_collect fuel frags (fst st) (snd st) = Some L) sets Ls ->
+  forall f, In f out <-> In f (concat Ls).
+Print Assumptions C17_mx_expand_eq_collect.
+
+(* Against the specification's own collection on the parsed selections: for selections that from_ast.rs builds
+   without loss (xb_ok: fields defined, no sub-selection under a leaf field, type conditions defined), the fields
+   expand_selections yields, each seen as the specification sees a field (mxb_proj), are exactly the members of
+   xv_collect *)
+Theorem C17_mx_expand_eq_spec_collect : forall s afrags p sels out fuel L,
+  (forall k f, In (k, f) afrags -> xv_is_some (sch_get_type s (xv_frag_cond f)) = true /\
+                                    Forall (xb_ok s (xv_frag_cond f)) (xv_frag_sels f)) ->
+  Forall (xb_ok s p) sels ->
+  mx_expand (mx_fragments s afrags []) [(p, mx_from_ast s p sels)] = Some out ->
+  xv_collect fuel s afrags p sels = Some L ->
+  forall c, In c L <-> exists f, In f out /\ mxb_proj f = c.
+Proof. exact mx_expand_eq_xv_collect. Qed.
+Check C17_mx_expand_eq_spec_collect : forall s afrags p sels out fuel L,
+  (forall k f, In (k, f) afrags -> xv_is_some (sch_get_type s (xv_frag_cond f)) = true /\
+                                    Forall (xb_ok s (xv_frag_cond f)) (xv_frag_sels f)) ->
+  Forall (xb_ok s p) sels ->
+  mx_expand (mx_fragments s afrags []) [(p, mx_from_ast s p sels)] = Some out ->
+  xv_collect fuel s afrags p sels = Some L ->
+  forall c, In c L <-> exists f, In f out /\ mxb_proj f = c.
+Print Assumptions C17_mx_expand_eq_spec_collect.
+
+(* 5.5.2.2 as Valid.v computes it (xv_reach: S (length frags) rounds of closure) gives the declarative statement
+   "no spread path from a fragment back to itself" (completeness of xv_reach); for such fragment maps the
+   specification's collection never runs out of its fuel *)
+Theorem C17_no_cycles_acyclic : forall d, xv_r_no_fragment_cycles d = true -> forall n, ~ fc_reach (xv_frags d) n n.
+Proof. exact xf_no_cycles. Qed.
+Check C17_no_cycles_acyclic : forall d, xv_r_no_fragment_cycles d = true -> forall n, ~ fc_reach (xv_frags d) n n.
+Print Assumptions C17_no_cycles_acyclic.
+
+Theorem C17_spec_collect_total : forall s frags, (forall n, ~ fc_reach frags n n) ->
+  forall p sels, xv_collect (S (length frags)) s frags p sels <> None.
+Proof. exact xf_collect_some. Qed.
+Check C17_spec_collect_total : forall s frags, (forall n, ~ fc_reach frags n n) ->
+  forall p sels, xv_collect (S (length frags)) s frags p sels <> None.
+Print Assumptions C17_spec_collect_total.
+
+(* with acyclic fragments the specification's evaluation of 5.3.2 is defined (xv_merge_fuel suffices) *)
+Theorem C17_merge_verdict_defined : forall s d, xv_r_no_fragment_cycles d = true -> xv_merge_out_of_fuel s d = false.
+Proof. exact xf_verdict_defined. Qed.
+Check C17_merge_verdict_defined : forall s d, xv_r_no_fragment_cycles d = true -> xv_merge_out_of_fuel s d = false.
+Print Assumptions C17_merge_verdict_defined.
+
+(* The literal algorithm WITHOUT the memo short-cuts (Exec/MergeXingEquivSem.v mxn_document: mx_document_ok with the
+   cache and the two OnceBool guards deleted, everything else kept; not extracted) always returns, ... *)
+Theorem C17_xing_nomemo_total : forall s d, mxn_document s d <> None.
+Proof. exact mxn_document_some. Qed.
+Check C17_xing_nomemo_total : forall s d, mxn_document s d <> None.
+Print Assumptions C17_xing_nomemo_total.
+
+(* ... and decides the specification's rule, staying within FIELD_DEPTH_LIMIT: over a schema whose field types are
+   defined leaf or composite types and whose root operation types are composite (xr_schema_ok), for a document
+   that passes 5.3.1, 5.3.3, 5.4.2, 5.6.3, 5.5.1.1-5.5.1.4, 5.5.2.2, has its root operation types defined and is
+   within the limits of Valid.v (xv_within_limits) *)
+Theorem C17_xing_equiv_nomemo : forall s d b hi,
+  xr_schema_ok s ->
+  xv_r_fields_defined s d = true -> xv_r_leaf_selections s d = true -> xv_r_argument_unique s d = true ->
+  xv_r_input_field_unique s d = true -> xv_r_fragment_type_exists s d = true -> xv_r_fragment_on_composite s d = true ->
+  xv_r_root_operation_defined xv_apollo_params s d = true ->
+  xv_r_fragment_name_unique d = true -> xv_r_fragments_used d = true -> xv_r_no_fragment_cycles d = true ->
+  xv_within_limits d = true ->
+  mxn_document s d = Some (b, hi) -> b = xv_r_fields_merge s d /\ (hi <= mx_field_depth_limit)%nat.
+Proof. exact xing_equiv_nomemo_full. Qed.
+Check C17_xing_equiv_nomemo : forall s d b hi,
+  xr_schema_ok s ->
+  xv_r_fields_defined s d = true -> xv_r_leaf_selections s d = true -> xv_r_argument_unique s d = true ->
+  xv_r_input_field_unique s d = true -> xv_r_fragment_type_exists s d = true -> xv_r_fragment_on_composite s d = true ->
+  xv_r_root_operation_defined xv_apollo_params s d = true ->
+  xv_r_fragment_name_unique d = true -> xv_r_fragments_used d = true -> xv_r_no_fragment_cycles d = true ->
+  xv_within_limits d = true ->
+  mxn_document s d = Some (b, hi) -> b = xv_r_fields_merge s d /\ (hi <= mx_field_depth_limit)%nat.
+Print Assumptions C17_xing_equiv_nomemo.
+
+(* Memo soundness: the literal algorithm with its two guards and the validator's cache (one cache for all
+   operations of the document) gives the verdict of the variant without them, whenever the latter's high water
+   mark of the recursion depth stays within FIELD_DEPTH_LIMIT.  No hypothesis on the document: a cache key is a
+   function of its field list on every document from_ast.rs builds. *)
+Theorem C17_xing_memo_sound : forall s d b hi,
+  mxn_document s d = Some (b, hi) -> (hi <= mx_field_depth_limit)%nat -> mx_document_ok s d = Some b.
+Proof. exact mx_document_memo_sound. Qed.
+Check C17_xing_memo_sound : forall s d b hi,
+  mxn_document s d = Some (b, hi) -> (hi <= mx_field_depth_limit)%nat -> mx_document_ok s d = Some b.
+Print Assumptions C17_xing_memo_sound.
+
+(* C17_xing_equiv, the full statement: the literal model of selection.rs (expand_selections with its queue,
+   grouping, first-against-rest, same_name_and_arguments, same_value, same_output_type_shape, the two memo guards
+   with the cache, FIELD_DEPTH_LIMIT) computes exactly the specification's FieldsInSetCanMerge verdict.
+   The hypotheses beyond those anticipated in the first version of this file are necessary: fragment names unique
+   and every fragment used (apollo validates field merging per operation; the specification's "any selection set
+   defined in the document" includes unused and shadowed fragment definitions), root operation types defined
+   (apollo drops such operations when building), and the two schema facts of xr_schema_ok. *)
+Theorem C17_xing_equiv : forall s d,
+  xr_schema_ok s ->
+  xv_r_fields_defined s d = true -> xv_r_leaf_selections s d = true -> xv_r_argument_unique s d = true ->
+  xv_r_input_field_unique s d = true -> xv_r_fragment_type_exists s d = true -> xv_r_fragment_on_composite s d = true ->
+  xv_r_root_operation_defined xv_apollo_params s d = true ->
+  xv_r_fragment_name_unique d = true -> xv_r_fragments_used d = true -> xv_r_no_fragment_cycles d = true ->
+  xv_within_limits d = true ->
+  mx_document_ok s d = Some (xv_r_fields_merge s d).
+Proof. exact xing_equiv_full. Qed.
+Check C17_xing_equiv : forall s d,
+  xr_schema_ok s ->
+  xv_r_fields_defined s d = true -> xv_r_leaf_selections s d = true -> xv_r_argument_unique s d = true ->
+  xv_r_input_field_unique s d = true -> xv_r_fragment_type_exists s d = true -> xv_r_fragment_on_composite s d = true ->
+  xv_r_root_operation_defined xv_apollo_params s d = true ->
+  xv_r_fragment_name_unique d = true -> xv_r_fragments_used d = true -> xv_r_no_fragment_cycles d = true ->
+  xv_within_limits d = true ->
+  mx_document_ok s d = Some (xv_r_fields_merge s d).
+Print Assumptions C17_xing_equiv.
 
 (* ---------- non-vacuity and witnesses ---------- *)
 Definition ex_A : str := [65]. Definition ex_B : str := [66]. Definition ex_C : str := [67].
@@ -207,4 +329,77 @@ Example C17_xing_groups_nonvacuous :
                  mf_def := xv_meta_typename_fd; mf_sub_ty := xs_String; mf_sub := [] |} in
   mx_group_by_common_parents ex_schema [mk ex_Q; mk ex_Q] = [[mk ex_Q; mk ex_Q]] /\
   xv_composite_name ex_schema ex_Q = true.
+Proof. vm_compute. split; reflexivity. Qed.
+
+(* ---------- non-vacuity of the field-merging equivalence ---------- *)
+Definition ex_T : str := [84]. Definition ex_x : str := [120]. Definition ex_y : str := [121]. Definition ex_u : str := [117].
+Definition ex_t : str := [116]. Definition ex_F : str := [70]. Definition ex_G : str := [71].
+Definition ex_mkfd (n : str) (args : list inputvaldef) (t : ty) : comp fielddef :=
+  mkcomp ODef {| fd_desc := None; fd_name := n; fd_args := args; fd_ty := t; fd_dirs := [] |}.
+(* scalar Int, scalar String, type __Schema, type __Type, type T { x: Int  y: Int  u: T },
+   type Query { f(a: [Int]): Int  t: T } *)
+Definition ex2_schema : schema :=
+  {| sch_def := {| sd_desc := None; sd_dirs := []; sd_query := Some (mkcomp ODef ex_Q); sd_mutation := None;
+                   sd_subscription := None |};
+     sch_dirdefs := [];
+     sch_types :=
+       [ EScalar None xs_Int [] true; EScalar None xs_String [] true;
+         EObject None xs_Schema_ty [] [] [] true; EObject None xs_Type_ty [] [] [] true;
+         EObject None ex_T [] [] [ ex_mkfd ex_x [] (TNamed xs_Int); ex_mkfd ex_y [] (TNamed xs_Int);
+                                   ex_mkfd ex_u [] (TNamed ex_T) ] false;
+         EObject None ex_Q [] []
+           [ ex_mkfd ex_f [ {| iv_desc := None; iv_name := ex_a; iv_ty := TList (TNamed xs_Int); iv_default := None;
+                               iv_dirs := [] |} ] (TNamed xs_Int);
+             ex_mkfd ex_t [] (TNamed ex_T) ] false ] |}.
+
+Example C17_ex2_schema_ok : xr_schema_ok ex2_schema.
+Proof.
+  split.
+  - intros p n fd. unfold xv_lookup_field, sch_get_type, xv_is_query_root. cbn -[streq].
+    repeat (match goal with |- context [streq ?a ?b] => destruct (streq a b) end; cbn -[streq]);
+      intros H; try discriminate H; injection H as <-; eexists; split; vm_compute; auto.
+  - intros op r. destruct op; vm_compute; intros H; try discriminate H. injection H as <-. reflexivity.
+Qed.
+
+(* query { t { a: x ...F } ...G }  fragment F on T { a: x u { y } }  fragment G on Query { t { u { y } } f(a: [1]) } *)
+Definition ex2_doc_ok : document :=
+  [ DOperation OpQuery None [] []
+      [ SField None ex_t [] [] [ SField (Some ex_a) ex_x [] [] []; SSpread ex_F [] ]; SSpread ex_G [] ];
+    DFragment ex_F ex_T [] [ SField (Some ex_a) ex_x [] [] []; SField None ex_u [] [] [ SField None ex_y [] [] [] ] ];
+    DFragment ex_G ex_Q []
+      [ SField None ex_t [] [] [ SField None ex_u [] [] [ SField None ex_y [] [] [] ] ];
+        SField None ex_f [ (ex_a, VList [ex_one]) ] [] [] ] ].
+(* the same with a conflict two levels down, between the two fragments: u { y } against u { y: x } *)
+Definition ex2_doc_bad : document :=
+  [ DOperation OpQuery None [] []
+      [ SField None ex_t [] [] [ SField (Some ex_a) ex_x [] [] []; SSpread ex_F [] ]; SSpread ex_G [] ];
+    DFragment ex_F ex_T [] [ SField (Some ex_a) ex_x [] [] []; SField None ex_u [] [] [ SField None ex_y [] [] [] ] ];
+    DFragment ex_G ex_Q []
+      [ SField None ex_t [] [] [ SField None ex_u [] [] [ SField (Some ex_y) ex_x [] [] [] ] ];
+        SField None ex_f [ (ex_a, VList [ex_one]) ] [] [] ] ].
+
+Definition ex2_hyps (d : document) : bool :=
+  xv_r_fields_defined ex2_schema d && xv_r_leaf_selections ex2_schema d && xv_r_argument_unique ex2_schema d
+  && xv_r_input_field_unique ex2_schema d && xv_r_fragment_type_exists ex2_schema d
+  && xv_r_fragment_on_composite ex2_schema d && xv_r_root_operation_defined xv_apollo_params ex2_schema d
+  && xv_r_fragment_name_unique d && xv_r_fragments_used d && xv_r_no_fragment_cycles d && xv_within_limits d.
+
+(* both documents satisfy every hypothesis of C17_xing_equiv; the literal algorithm accepts the first and rejects
+   the second, as the specification's rule does *)
+Example C17_xing_equiv_nonvacuous :
+  xr_schema_ok ex2_schema /\ ex2_hyps ex2_doc_ok = true /\ ex2_hyps ex2_doc_bad = true /\
+  mx_document_ok ex2_schema ex2_doc_ok = Some true /\ xv_r_fields_merge ex2_schema ex2_doc_ok = true /\
+  mx_document_ok ex2_schema ex2_doc_bad = Some false /\ xv_r_fields_merge ex2_schema ex2_doc_bad = false /\
+  mxn_document ex2_schema ex2_doc_ok = Some (true, 2%nat).
+Proof. split; [exact C17_ex2_schema_ok|]. vm_compute. repeat split. Qed.
+
+(* expand_selections on a cyclic fragment map with a fragment spread twice: the queue walk visits F once, the
+   in-place collection twice (and needs fuel); same members *)
+Example C17_mx_expand_nonvacuous :
+  let fd := xv_meta_typename_fd in
+  let fr : list (str * mx_set) := [ (ex_F, (ex_T, [ MxField None ex_x [] [] fd xs_Int []; MxSpread ex_G [] ]));
+                                    (ex_G, (ex_T, [ MxField None ex_y [] [] fd xs_Int [] ])) ] in
+  let sets : list mx_set := [ (ex_T, [ MxSpread ex_F []; MxInline None [] ex_T [ MxSpread ex_F [] ] ]) ] in
+  option_map (map mf_name) (mx_expand fr sets) = Some [ex_x; ex_y] /\
+  option_map (map mf_name) (mxc_collect 3 fr ex_T (snd (hd (ex_T, []) sets))) = Some [ex_x; ex_y; ex_x; ex_y].
 Proof. vm_compute. split; reflexivity. Qed.
